@@ -88,19 +88,26 @@ Section Reach.
 End Reach.
 
 (* ---- the table regenerated from the real genGeom offers every bit length 1..bitlen ---- *)
-Definition table_offers_all : bool :=
-  forallb (fun bl => forallb (fun n => N.eqb (geom_of geom_tab bl (geom_wit bl n)) (N.of_nat n)
-                                        && N.ltb (geom_wit bl n) (2 ^ 53))
-                             (seq 1 bl)) (seq 0 65).
-Lemma table_offers_all_true : table_offers_all = true.
-Proof. vm_compute. reflexivity. Qed.
-Lemma table_offers bl n : (bl <= 64)%nat -> (1 <= n <= bl)%nat ->
-  geom_of geom_tab bl (geom_wit bl n) = N.of_nat n /\ geom_wit bl n < 2 ^ 53.
+Definition offers_all (tab : list (nat * list N)) (B : nat) : bool :=
+  forallb (fun bl => forallb (fun n => N.eqb (geom_of tab bl (geom_wit_of tab bl n)) (N.of_nat n)
+                                        && N.ltb (geom_wit_of tab bl n) (2 ^ 53))
+                             (seq 1 bl)) (seq 0 B).
+(* the lifting is proved for an arbitrary table and bound, so that using it never makes the kernel evaluate the sweep *)
+Lemma offers_all_spec tab B : offers_all tab B = true ->
+  forall bl n, (bl < B)%nat -> (1 <= n <= bl)%nat ->
+    geom_of tab bl (geom_wit_of tab bl n) = N.of_nat n /\ geom_wit_of tab bl n < 2 ^ 53.
 Proof.
-  intros Hbl Hn. pose proof table_offers_all_true as H. unfold table_offers_all in H.
+  intros H bl n Hbl Hn. unfold offers_all in H.
   rewrite forallb_forall in H. specialize (H bl). rewrite in_seq in H. specialize (H ltac:(lia)).
   rewrite forallb_forall in H. specialize (H n). rewrite in_seq in H. specialize (H ltac:(lia)).
   apply andb_prop in H. destruct H as [H1 H2]. apply N.eqb_eq in H1. apply N.ltb_lt in H2. split; assumption.
+Qed.
+Lemma table_offers_all_true : offers_all geom_tab 65 = true.
+Proof. vm_cast_no_check (eq_refl true). Qed.
+Lemma table_offers bl n : (bl <= 64)%nat -> (1 <= n <= bl)%nat ->
+  geom_of geom_tab bl (geom_wit bl n) = N.of_nat n /\ geom_wit bl n < 2 ^ 53.
+Proof.
+  intros Hbl Hn. exact (offers_all_spec geom_tab 65 table_offers_all_true bl n ltac:(lia) Hn).
 Qed.
 
 
@@ -226,7 +233,7 @@ Definition max_mass_ok : bool :=
   forallb (fun bl => N.leb (N.of_nat (Nat.max (S bl) (over_thr bl))) (geom_of geom_tab bl (over_from bl))
                      && N.ltb (over_from bl) (2 ^ 53)
                      && N.leb (2 ^ 53) ((2 ^ 53 - over_from bl) * 50)) (seq 0 65).
-Lemma max_mass_ok_true : max_mass_ok = true. Proof. vm_compute. reflexivity. Qed.
+Lemma max_mass_ok_true : max_mass_ok = true. Proof. vm_cast_no_check (eq_refl true). Qed.
 Lemma geom_of_mono_tab : forall bl k k', k <= k' -> geom_of geom_tab bl k <= geom_of geom_tab bl k'.
 Proof.
   intros bl k k' H. unfold geom_of. destruct (find _ geom_tab) as [[b thr]|]; [|lia].
@@ -251,7 +258,7 @@ Definition zero_mass_ok : bool :=
   forallb (fun bl => N.eqb (geom_of geom_tab bl 0) 1 &&
                      match find (fun p => Nat.eqb (fst p) bl) geom_tab with
                      | Some (_, t :: _) => N.leb (2 ^ 53) (t * 18) | _ => false end) (seq 0 65).
-Lemma zero_mass_ok_true : zero_mass_ok = true. Proof. vm_compute. reflexivity. Qed.
+Lemma zero_mass_ok_true : zero_mass_ok = true. Proof. vm_cast_no_check (eq_refl true). Qed.
 
 (* ---- seeds of one run are pairwise distinct (engine.go: seed + i, uint64 wrap-around) ---- *)
 Theorem seeds_distinct seed i j : i < 2 ^ 64 -> j < 2 ^ 64 -> i <> j -> wrapN (seed + i) <> wrapN (seed + j).
